@@ -4,6 +4,7 @@
 (* never written).                                                                                                     *)
 (*   logging thread z, first log call:  ThreadContextManager::register_thread_context():                               *)
 (*        lock; _thread_contexts.push_back(ctx); unlock;  _new_thread_context_flag.store(true, MoSet)   [ZReg, ZFlag]   *)
+(*        (the order of the two is EXTRACTED: the thread is parked at the lock's exchange and at the flag's store)      *)
 (*        ... the statement is committed to the new queue                                                              *)
 (*   backend, _update_active_thread_contexts_cache() (start of every _poll, and again in the idle branch / _exit):      *)
 (*        if (_new_thread_context_flag.load(MoLoad)) { _new_thread_context_flag.store(false, MoClear);  [BLoad, BClear] *)
@@ -17,6 +18,7 @@ EXTENDS Integers, Sequences, FiniteSets, TLC, Json
 CONSTANTS Zs,                         \* the registering threads
           MoSet, MoLoad, MoClear,     \* "rlx" | "acq" | "rel" | "ar"
           ClearBeforeCopy,            \* the backend clears the flag before it copies the registry (as the code does)
+          RegBeforeFlag,              \* a new thread pushes its context (under the lock) before it raises the flag (as the code does)
           Export
 VARIABLES F, lk, clk, viewB, reg, cache, pc, pcB, hist
 vars == <<F, lk, clk, viewB, reg, cache, pc, pcB, hist>>
@@ -37,10 +39,13 @@ LoB == LET hb == {j \in 1..Len(F) : Leq(F[j].ev, clk["B"])} IN
 \* a critical section of thread t under the registry lock: acquire (joins the last unlock), ..., release (publishes)
 Locked(t) == Tick(Tick(Join(clk[t], lk), t), t)
 
-ZReg(z) == /\ pc[z] = "idle" /\ pc' = [pc EXCEPT ![z] = "reg"]
+First(z) == pc[z] = "idle"
+Second(z) == pc[z] = "half"
+Adv(z) == pc' = [pc EXCEPT ![z] = IF pc[z] = "idle" THEN "half" ELSE "done"]
+ZReg(z) == /\ (IF RegBeforeFlag THEN First(z) ELSE Second(z)) /\ Adv(z)
            /\ reg' = reg \cup {z} /\ clk' = [clk EXCEPT ![z] = Locked(z)] /\ lk' = Locked(z)
            /\ UNCHANGED <<F, viewB, cache, pcB>> /\ Step(z, "reg", <<>>)
-ZFlag(z) == /\ pc[z] = "reg" /\ pc' = [pc EXCEPT ![z] = "done"]
+ZFlag(z) == /\ (IF RegBeforeFlag THEN Second(z) ELSE First(z)) /\ Adv(z)
             /\ LET c2 == Tick(clk[z], z) IN
                /\ F' = Append(F, Msg(1, IF IsRel(MoSet) THEN c2 ELSE Zero, c2)) /\ clk' = [clk EXCEPT ![z] = c2]
             /\ UNCHANGED <<lk, viewB, reg, cache, pcB>> /\ Step(z, "flag", <<>>)
